@@ -688,7 +688,9 @@ def main():
         if exe and not cfg.get("no_shrink"):
             s2, i2, c2 = shrink(cfg, pid, harnesses[hidx][0], harnesses[hidx][1], ops, iss["kind"], tmp,
                                 budget_s=40 if tier == "quick" else 120)
-            if i2 is None and harnesses[hidx][1].get("confirm"):
+            # a model/implementation difference only counts if it shows again when the case is executed on its
+            # own (twice): harnesses that run a real hub against the wall clock can be disturbed by machine load
+            if i2 is None and harnesses[hidx][1].get("confirm", iss["kind"] == "diff"):
                 # timing-sensitive harness: a difference only counts if it shows again on re-execution
                 s2, i2, c2 = shrink(cfg, pid, harnesses[hidx][0], harnesses[hidx][1], ops, iss["kind"], tmp, budget_s=20)
                 if i2 is None:
